@@ -48,6 +48,9 @@ func mod(i, n int) int {
 
 func genC10(t *rapid.T) C10Case {
 	c := C10Case{RPC: rapid.SampledFrom(rhpc.RPCs).Draw(t, "rpc"), N: rapid.IntRange(0, 9).Draw(t, "n")}
+	if rapid.IntRange(0, 3).Draw(t, "big") == 0 {
+		c.N = rapid.IntRange(10, 40).Draw(t, "nbig") // deeper Merkle trees over the sector roots
+	}
 	np := 6
 	for i := 0; i < np; i++ {
 		c.P = append(c.P, rapid.IntRange(0, 70000).Draw(t, "p"))
@@ -109,10 +112,17 @@ func signBoth(cs consensus.State, fc *types.V2FileContract) {
 	fc.HostSignature = c10HostKey.SignHash(h)
 }
 
+// poolRoots returns n distinct sector roots: the roots of the pre-hashed pool
+// sectors first, then synthetic hashes (roots are opaque to every RPC that
+// does not touch sector data, and only pool sectors are ever read).
 func poolRoots(n int) []types.Hash256 {
 	out := make([]types.Hash256, n)
 	for i := range out {
-		out[i] = rhpc.PoolSector(i).Root
+		if i < rhpc.PoolSize {
+			out[i] = rhpc.PoolSector(i).Root
+		} else {
+			out[i] = types.HashBytes([]byte(fmt.Sprintf("verif-synthetic-sector-root-%d", i)))
+		}
 	}
 	return out
 }
@@ -123,8 +133,8 @@ func newC10Env(c C10Case, cs consensus.State) *c10Env {
 	e := &c10Env{cs: cs, signer: rhpc.KeySigner{K: c10RenterKey}}
 	e.prices = rhpc.SignPrices(c10HostKey, basePrices, cs.Index.Height)
 	e.host = rhpc.NewByzHost(c10HostKey, cs, e.prices, c.Mut)
-	n := mod(c.N, 10)
-	for i := 0; i < max(n, 3); i++ {
+	n := mod(c.N, 41)
+	for i := 0; i < min(max(n, 3), rhpc.PoolSize); i++ {
 		s := rhpc.PoolSector(i)
 		e.host.Sectors[s.Root] = s
 	}
@@ -228,10 +238,10 @@ func runC10With(c C10Case, cs *kit.CaseStats, raw func(idx int, wire []byte) []b
 		}
 	default:
 		// domain: sector-root and free ranges lie inside the contract
-		if c.RPC == "roots" && mod(c.N, 10) == 0 {
+		if c.RPC == "roots" && mod(c.N, 41) == 0 {
 			c.N = 1
 		}
-		if c.RPC == "free" && mod(c.N, 10) == 0 {
+		if c.RPC == "free" && mod(c.N, 41) == 0 {
 			c.N = 2
 		}
 		env = newC10Env(c, baseState())
@@ -705,9 +715,9 @@ func TestC10Enum(t *testing.T) {
 		}
 	}
 	// shape sweep: Merkle diff / range proofs depend on the tree shape, so the
-	// consistent-lie families are run for every contract size 2..9, every
+	// consistent-lie families are run for every contract size 2..20, every
 	// requested index and a few alternatives
-	for n := 2; n <= 9; n++ {
+	for n := 2; n <= 20; n++ {
 		if !mine() {
 			continue
 		}
